@@ -46,6 +46,99 @@ type fnInfo struct {
 	isInit bool
 	isRepo bool
 	initPkg string
+	chainMu sync.Mutex
+	chains  map[*ssa.If]*eqChain
+}
+
+// eqChain describes `if x==c1 goto T; if x==c2 goto T; ...; else E`.
+type eqChain struct {
+	x         ssa.Value
+	consts    []*ssa.Const
+	blocks    []*ssa.BasicBlock
+	target    *ssa.BasicBlock
+	elseBlock *ssa.BasicBlock
+}
+
+func eqTest(b *ssa.BasicBlock, onlyThese bool) (*ssa.BinOp, *ssa.If) {
+	n := len(b.Instrs)
+	if n < 2 {
+		return nil, nil
+	}
+	iff, ok := b.Instrs[n-1].(*ssa.If)
+	if !ok {
+		return nil, nil
+	}
+	bo, ok := iff.Cond.(*ssa.BinOp)
+	if !ok || bo.Op != token.EQL || bo.Block() != b {
+		return nil, nil
+	}
+	if _, ok := bo.Y.(*ssa.Const); !ok {
+		return nil, nil
+	}
+	if bt, ok := bo.X.Type().Underlying().(*types.Basic); !ok || bt.Info()&types.IsInteger == 0 {
+		return nil, nil
+	}
+	if refs := bo.Referrers(); refs == nil || len(*refs) != 1 {
+		return nil, nil
+	}
+	if onlyThese && (n != 2 || b.Instrs[0] != ssa.Instruction(bo)) {
+		return nil, nil
+	}
+	return bo, iff
+}
+
+func (fi *fnInfo) chainOf(iff *ssa.If) *eqChain {
+	fi.chainMu.Lock()
+	defer fi.chainMu.Unlock()
+	if fi.chains == nil {
+		fi.chains = map[*ssa.If]*eqChain{}
+	}
+	if ch, ok := fi.chains[iff]; ok {
+		return ch
+	}
+	var ch *eqChain
+	b0 := iff.Block()
+	if bo, i0 := eqTest(b0, false); bo != nil && i0 == iff {
+		c := &eqChain{x: bo.X, target: b0.Succs[0], consts: []*ssa.Const{bo.Y.(*ssa.Const)}, blocks: []*ssa.BasicBlock{b0}}
+		next := b0.Succs[1]
+		for {
+			nb, _ := eqTest(next, true)
+			if nb == nil || nb.X != bo.X || next.Succs[0] != c.target || len(next.Preds) != 1 {
+				break
+			}
+			c.consts = append(c.consts, nb.Y.(*ssa.Const))
+			c.blocks = append(c.blocks, next)
+			next = next.Succs[1]
+		}
+		c.elseBlock = next
+		ok := len(c.blocks) >= 2 && c.target != c.elseBlock
+		// phis of the target must not distinguish the chain's edges
+		if ok {
+			for _, in := range c.target.Instrs {
+				phi, isPhi := in.(*ssa.Phi)
+				if !isPhi {
+					break
+				}
+				var first ssa.Value
+				for pi, pred := range c.target.Preds {
+					for _, cb := range c.blocks {
+						if pred == cb {
+							if first == nil {
+								first = phi.Edges[pi]
+							} else if phi.Edges[pi] != first {
+								ok = false
+							}
+						}
+					}
+				}
+			}
+		}
+		if ok {
+			ch = c
+		}
+	}
+	fi.chains[iff] = ch
+	return ch
 }
 
 type deferred struct {
@@ -94,6 +187,9 @@ type Machine struct {
 	Params map[string]int
 	fallback func() []*sym.Solver
 	emit     func(WorkItem)
+	curInstr ssa.Instruction
+	curFn    *ssa.Function
+	ForkSites bool
 }
 
 func NewProgram(prog *ssa.Program, repoPath string) *Program {
@@ -391,6 +487,7 @@ func (fr *frame) runFrame() {
 			if m.CountFiles {
 				m.StepsByFile[fr.info.file]++
 			}
+			m.curInstr, m.curFn = instr, fr.fn
 			if fr.visitInstr(instr) == kReturn {
 				return
 			}
@@ -522,8 +619,27 @@ func (fr *frame) visitInstr(instr ssa.Instruction) continuation {
 		store(deref(instr.Addr.Type()), p, fr.get(instr.Val))
 
 	case *ssa.If:
+		cv := fr.get(instr.Cond)
+		if ct, ok := cv.(*sym.Term); ok && !ct.IsConst() {
+			if ch := fr.info.chainOf(instr); ch != nil {
+				// `case a, b, c:` lowered to a chain of equality tests with one
+				// target: decide the disjunction once instead of forking per value
+				c := m.ctx()
+				x := m.toTerm(fr.get(ch.x))
+				acc := c.False
+				for _, k := range ch.consts {
+					acc = c.Or(acc, c.Eq(x, m.toTerm(constValue(k))))
+				}
+				if m.truth(lowerBool(acc)) {
+					fr.prevBlock, fr.block = ch.blocks[0], ch.target
+				} else {
+					fr.prevBlock, fr.block = ch.blocks[len(ch.blocks)-1], ch.elseBlock
+				}
+				return kJump
+			}
+		}
 		succ := 1
-		if m.truth(fr.get(instr.Cond)) {
+		if m.truth(cv) {
 			succ = 0
 		}
 		fr.prevBlock, fr.block = fr.block, fr.block.Succs[succ]
